@@ -1,6 +1,7 @@
 package chainkit
 
 import (
+	"bytes"
 	"encoding/binary"
 	"errors"
 	"fmt"
@@ -328,6 +329,13 @@ func Flows(bc *core.Blockchain, blk *block.Block, depositsBefore map[util.Uint16
 		halted := false
 		if aer, err := bc.GetAppExecResults(tx.Hash(), trigger.Application); err == nil && len(aer) == 1 {
 			halted = aer[0].VMState == vmstate.Halt
+		}
+		if bytes.Contains(tx.Script, []byte("getTransactionFromBlock")) || bytes.Contains(tx.Script, []byte("\x08getBlock")) {
+			if halted {
+				set["ledger-question-answered"] = true
+			} else {
+				set["ledger-question-fault"] = true
+			}
 		}
 		for _, at := range tx.Attributes {
 			switch at.Type {
